@@ -59,6 +59,13 @@ def classify(detail, b, exc=None):
         return 'C16.shebang.non_utf8_bytes'
     if has_cr_only and fl.startswith(b'#!'):
         return 'C16.shebang.cr_only'
+    m = re.match(br'^#![^\r\n]*?coding[:=][ \t]*([-\w.]+)', fl)
+    if m and 'preserve_shebang=True' in detail and 'encoded as UTF-8' in detail:
+        try:
+            if codecs.lookup(m.group(1).decode('ascii')).name != 'utf-8':
+                return 'C16.shebang.cookie_on_shebang_line'
+        except LookupError:
+            pass
     return None
 
 
@@ -129,6 +136,14 @@ def run_case(case):
                 viol('all-off result denotes a different program (preserve_shebang=%s): %s' % (preserve, first_diff(ref, got)))
         except Exception as e:
             viol('all-off result does not parse: %s' % e)
+        # (1b) the property is about the result *encoded as UTF-8*: parse the bytes, so that whatever the first two lines declare takes effect
+        try:
+            got_b = ast.parse(out.encode('utf-8'))
+            res['counters']['utf8_bytes_parsed'] = res['counters'].get('utf8_bytes_parsed', 0) + 1
+            if sdump(got_b) != want:
+                viol('result encoded as UTF-8 denotes a different program (preserve_shebang=%s): %s' % (preserve, first_diff(ref, got_b)))
+        except Exception as e:
+            viol('result encoded as UTF-8 does not parse (preserve_shebang=%s): %s' % (preserve, str(e)[:100]))
         # (2) bytes vs text
         if text_ok and not bom_shebang:
             try:
@@ -194,6 +209,10 @@ EXTRA = [
     ('comment_hash_bang_later', b'x = 1\n#!not a shebang\nprint(x)\n'),
     ('space_before_shebang', b' #!/usr/bin/python\nprint(1)\n' if False else b'#! /usr/bin/python\nprint(1)\n'),
     ('formfeed', b'x = 1\n\x0cprint(x)\n'),
+    # the coding cookie sits on the shebang line itself: the line is reproduced, the output is UTF-8
+    ('cookie_on_shebang_line_latin1', b'#!/usr/bin/python -*- coding: latin-1 -*-\nx = "caf\xe9"\nprint(ascii(x))\n'),
+    ('cookie_on_shebang_line_utf8', u'#!/usr/bin/python -*- coding: utf-8 -*-\nx = "caf\u00e9"\nprint(ascii(x))\n'.encode('utf-8')),
+    ('cookie_on_shebang_line_cp1252', b'#!/usr/bin/env python # vim: set fileencoding=cp1252 :\nx = "\x93q\x94"\nprint(ascii(x))\n'),
     # characters str.splitlines() treats as line ends but the tokenizer (and bytes.splitlines) do not: they belong to the shebang line
     ('shebang_formfeed_inside', b'#!/usr/bin/env python\x0c -u\nprint(1)\n'),
     ('shebang_vtab_inside', b'#!/usr/bin/env python\x0b -u\nprint(1)\n'),
